@@ -444,14 +444,14 @@ func report(cfg *config, e *Engine, results []*funcResult, tLoad, tGen, tSolve, 
 			// every instance discharged in well under the quick timeout, so that solver jitter on another machine cannot
 			// raise an alarm on the unchanged tree
 			for _, o := range r.inst {
-				if o.Time > float64(cfg.timeout)/4 {
+				if o.Time > float64(cfg.timeout)/3 {
 					slowName[r.Name] = true
 					failedKey[baseKey(r.Name)] = true
 				}
 			}
 		}
 		for n := range slowName {
-			fmt.Printf("NOTE: not admitted to the baseline (slow, > %.1fs): %s\n", float64(cfg.timeout)/4, n)
+			fmt.Printf("NOTE: not admitted to the baseline (slow, > %.1fs): %s\n", float64(cfg.timeout)/3, n)
 		}
 		keys := map[string]bool{}
 		for _, n := range proved {
